@@ -230,6 +230,14 @@ class Session:
             "cer-otherhost-2ip": lambda: node.cer(hbh, e2e, host="intruder.example", apps=apps, dup=257),
             "cer-2ip": lambda: node.cer(hbh, e2e, apps=apps, dup=257),
             "dwr-otherhost-2realm": lambda: node.dwr(hbh, e2e, host="intruder.example", dup=296),
+            # well-framed base messages that decode without error and then meet the validators
+            "dwr-badutf8": lambda: node.dwr(hbh, e2e, host=b"\xff\xfe"),
+            "dwr-badutf8-realm": lambda: node.dwr(hbh, e2e, realm=b"\xc3\x28"),
+            "cer-badutf8": lambda: node.cer(hbh, e2e, host=b"\xff\xfe", apps=apps),
+            "cea-badutf8": lambda: node.cea(*self.last_request_ids(257), realm=b"\xc3\x28", apps=apps),
+            "cer-vendor257": lambda: node.cer(hbh, e2e, apps=apps, extra=[(257, 0x80, 9999, b"")]),
+            "dpr-busy": lambda: node.dpr(hbh, e2e, cause=1),
+            "dpr-dontwant": lambda: node.dpr(hbh, e2e, cause=2),
             "cea": lambda: node.cea(hbh, e2e, apps=apps),
             "cea-echo": lambda: node.cea(*self.last_request_ids(257), apps=apps),
             "cea-otherhost": lambda: node.cea(*self.last_request_ids(257), host="intruder.example", apps=apps),
@@ -265,8 +273,9 @@ class Session:
             meta["requests"] = [(280, hbh, e2e), (282, e2e ^ 0x55, hbh ^ 0xaa)]
         elif what == "cer+dwr":
             meta["requests"] = [(257, hbh, e2e), (280, e2e ^ 0x55, hbh ^ 0xaa)]
-        elif what in ("cer", "dwr", "dpr", "dwr+app", "cer-2ip"):
-            meta["requests"] = [({"cer": 257, "dwr": 280, "dpr": 282, "dwr+app": 280, "cer-2ip": 257}[what], hbh, e2e)]
+        elif what in ("cer", "dwr", "dpr", "dwr+app", "cer-2ip", "dpr-busy", "dpr-dontwant", "cer-vendor257"):
+            meta["requests"] = [({"cer": 257, "dwr": 280, "dpr": 282, "dwr+app": 280, "cer-2ip": 257, "dpr-busy": 282,
+                                  "dpr-dontwant": 282, "cer-vendor257": 257}[what], hbh, e2e)]
         return data, meta
 
     def last_request_ids(self, code):
@@ -322,7 +331,7 @@ def judge(role, prev, o, history_ctx):
     # G4: Open only through R4 / R8
     if ns in OPENS and ps not in OPENS:
         ok = (role == "client" and ps == "Wait-I-CEA" and what in ("cea-echo", "cea-echo-2ip")) or \
-             (role == "server" and ps == "Closed" and what in ("cer", "cer+dwr", "cer-2ip"))
+             (role == "server" and ps == "Closed" and what in ("cer", "cer+dwr", "cer-2ip", "cer-vendor257"))
         if not ok:
             errs.append((sig(f"G4:opened-without-capabilities-exchange:{ps}:{kind if what is None else what}"),
                          f"G4: state became {ns} from {ps} on {ev}"))
@@ -350,8 +359,8 @@ def judge(role, prev, o, history_ctx):
             elif what == "cea-echo-2ip":
                 # a second Host-IP-Address is legitimate (RFC 6733: 1* { Host-IP-Address }); the statement only
                 # says when the connection may NOT open, so a stricter validator is not a violation
-                allow({"I-Open", "Wait-I-CEA", "Closed"}, "R4")
-            elif what in ("cea-otherhost", "cea-otherhost-2ip", "cea-incomplete", "cea"):
+                allow({"I-Open", "Wait-I-CEA", "Closed"} | ({"Closing"} if prev and prev.get("stop_req") else set()), "R4")
+            elif what in ("cea-otherhost", "cea-otherhost-2ip", "cea-incomplete", "cea", "cea-badutf8"):
                 allow({"Wait-I-CEA", "Closed"}, "R5")
             elif what == "cer":
                 # RFC 6733 election (R-Conn-CER while awaiting the CEA): the unimplemented Wait-Returns state
@@ -365,7 +374,8 @@ def judge(role, prev, o, history_ctx):
         if ps == "Closed" and kind == "msg" and o["conn"] != "none":
             if what in ("cer", "cer+dwr"):
                 allow({"R-Open"}, "R8")
-            elif what == "cer-2ip":
+            elif what in ("cer-2ip", "cer-vendor257"):
+                # a valid CER of the configured peer with an additional (legitimate / foreign vendor) AVP
                 allow({"R-Open", "Closed"}, "R8")
             else:
                 allow({"Closed"}, "R9")
@@ -396,7 +406,8 @@ def judge(role, prev, o, history_ctx):
                 allow({ps}, "R10")
             elif what == "dwa-echo":
                 allow({ps, "Closing", "Closed"}, "R11")
-            elif what in ("dwr-otherhost", "dwa", "dwa-otherhost", "cea", "cea-echo", "dpa", "cea-otherhost", "cea-incomplete"):
+            elif what in ("dwr-otherhost", "dwa", "dwa-otherhost", "cea", "cea-echo", "dpa", "cea-otherhost", "cea-incomplete",
+                          "dwr-badutf8", "dwr-badutf8-realm", "cer-badutf8"):
                 allow({ps, "Closing", "Closed"}, "R11")
             elif what in ("cer", "cer-otherhost", "cer-incomplete", "cer-otherrealm"):
                 allow({ps} if what == "cer" else {ps, "Closing", "Closed"}, "R12")
@@ -406,9 +417,9 @@ def judge(role, prev, o, history_ctx):
                     errs.append((sig(f"R13:dpa-count:{what}"), f"R13: {what} in one read answered by {len(emitted(282, False))} DPA(s)"))
                 if what == "app+dpr" and len(o["delivered"]) != 1:
                     errs.append((sig("R14:delivery:app+dpr"), f"R14: request before the DPR handed over {len(o['delivered'])} times"))
-            elif what in ("dpr", "dpr-otherhost"):
+            elif what in ("dpr", "dpr-otherhost", "dpr-busy", "dpr-dontwant"):
                 allow({"Closed"}, "R13")
-                if what == "dpr" and len(emitted(282, False)) != 1:
+                if what != "dpr-otherhost" and len(emitted(282, False)) != 1:
                     errs.append((sig("R13:dpa-count"), f"R13: valid DPR answered by {len(emitted(282, False))} DPA(s)"))
             elif what in ("app-req", "app-ans"):
                 allow({ps}, "R14")
@@ -506,10 +517,10 @@ def run_history(role, apps, history, watchdog=30):
     return rt, (s.obs if s else [])
 
 
-MSGS_OPEN = ["dwr", "dwr-otherhost", "dwr-otherhost-2realm", "dwa", "dwa-otherhost", "dpr", "dpr-otherhost", "dpa", "cer", "cer-otherhost",
+MSGS_OPEN = ["dwr", "dwr-badutf8", "dwr-badutf8-realm", "cer-badutf8", "dpr-busy", "dpr-dontwant", "dwr-otherhost", "dwr-otherhost-2realm", "dwa", "dwa-otherhost", "dpr", "dpr-otherhost", "dpa", "cer", "cer-otherhost",
              "cea", "cea-echo", "dwa-echo", "app-req", "app-ans", "req-otherhost", "req-otherrealm", "dwr+dwr", "dwr+app"]
-MSGS_WAIT_CEA = ["cea-echo", "cea-echo-2ip", "cea-otherhost", "cea-otherhost-2ip", "cea-incomplete", "cer", "dwr", "dwa", "dpr", "dpa", "app-req", "app-ans"]
-MSGS_SERVER_CLOSED = ["cer", "cer-2ip", "cer-otherhost", "cer-otherhost-2ip", "cer-otherrealm", "cer-incomplete", "dwr", "app-req", "cea", "dpr"]
+MSGS_WAIT_CEA = ["cea-echo", "cea-echo-2ip", "cea-badutf8", "cea-otherhost", "cea-otherhost-2ip", "cea-incomplete", "cer", "dwr", "dwa", "dpr", "dpa", "app-req", "app-ans"]
+MSGS_SERVER_CLOSED = ["cer", "cer-2ip", "cer-badutf8", "cer-vendor257", "cer-otherhost", "cer-otherhost-2ip", "cer-otherrealm", "cer-incomplete", "dwr", "app-req", "cea", "dpr"]
 
 
 class FsmModel:
